@@ -64,6 +64,10 @@ def eq_cases(draw):
         "out": "".join(out),
         "sizes": sizes,
         "stretch": stretch,
+        # how the equation is written: explicit output, implicit output (when the
+        # drawn output IS the implicit one) and/or with spaces, as numpy accepts
+        "spaces": draw(st.integers(0, 5)) == 0,
+        "implicit": draw(st.integers(0, 3)) == 0,
         "fallback": draw(st.booleans()),
         "aseed": draw(st.integers(0, 99)),
         "dtype": draw(st.sampled_from(["f", "c"])),
@@ -142,6 +146,12 @@ def run_einsum(spec):
     sizes = dict(spec["sizes"])
     arrays = ref.make_arrays(terms, sizes, spec["aseed"], spec.get("dtype", "f"))
     eq = ",".join(spec["terms"]) + "->" + spec["out"]
+    flat_ = "".join(spec["terms"])
+    implicit_out = "".join(sorted(ch for ch in set(flat_) if flat_.count(ch) == 1))
+    if spec.get("implicit") and spec["out"] == implicit_out:
+        eq = ",".join(spec["terms"])
+    if spec.get("spaces"):
+        eq = eq.replace(",", " , ").replace("->", " -> ")
     stretched = False
     for i, j in spec.get("stretch") or []:
         # keep only the first hyperplane along that axis: a size-1 axis
@@ -193,6 +203,10 @@ def run_einsum(spec):
             cls.append("fallback_plan")
     if stretched:
         cls.append("stretched_size1_axis")
+    if "->" not in eq:
+        cls.append("implicit_output")
+    if " " in eq:
+        cls.append("spaces")
     nontrivial = bool({"repeat", "size1", "batch", "stretched_size1_axis"} & set(cls))
     return Outcome(viol, nontrivial, cls)
 
